@@ -10,6 +10,7 @@ import (
 	"go/types"
 	"reflect"
 	"regexp"
+	"sort"
 	"strings"
 
 	"golang.org/x/tools/go/cfg"
@@ -167,7 +168,9 @@ func checkMatchedMarked(c *Ctx, rule string) {
 	ast.Inspect(fi.Decl.Body, func(m ast.Node) bool {
 		if vs, ok := m.(*ast.ValueSpec); ok {
 			for _, nm := range vs.Names {
-				if mt, ok := info.TypeOf(nm).Underlying().(*types.Map); ok && typeIs(derefType(mt.Key()), pSchema, "Index") {
+				if tp := info.TypeOf(nm); tp == nil {
+					continue
+				} else if mt, ok := tp.Underlying().(*types.Map); ok && typeIs(derefType(mt.Key()), pSchema, "Index") {
 					marker = info.ObjectOf(nm)
 				}
 			}
@@ -175,7 +178,9 @@ func checkMatchedMarked(c *Ctx, rule string) {
 		if as, ok := m.(*ast.AssignStmt); ok && as.Tok == token.DEFINE {
 			for _, l := range as.Lhs {
 				if id, ok := l.(*ast.Ident); ok {
-					if mt, ok := info.TypeOf(id).Underlying().(*types.Map); ok && typeIs(derefType(mt.Key()), pSchema, "Index") {
+					if tp := info.TypeOf(id); tp == nil {
+						continue
+					} else if mt, ok := tp.Underlying().(*types.Map); ok && typeIs(derefType(mt.Key()), pSchema, "Index") {
 						marker = info.ObjectOf(id)
 					}
 				}
@@ -1939,4 +1944,923 @@ func checkStateConsumed(c *Ctx, rule string) {
 	if n < 1 {
 		c.Unresolved(rule, "stores of a consumed state in the goose/dbmate readers")
 	}
+}
+
+// R16n: the qualifier decision does not depend on other options.
+const ruleTextQualifierIndependent = "the schema-scope decision is independent of the other plan options: in a function of the command layer that stores PlanOptions.SchemaQualifier under a test of `<client>.URL.Schema != \"\"`, no path from the entry of the innermost function body holding the store reaches its exit without the store unless it took an edge implying URL.Schema == \"\". Folding the test into a switch behind another option (`case len(indent) > 0: …; case client.URL.Schema != \"\": …`) skips the store whenever that option is given, and the schema-bound connection gets statements that name its schema"
+
+func checkQualifierIndependent(c *Ctx, rule string) {
+	n := 0
+	c.AllFuncs(false, func(fi *FuncInfo) {
+		if !strings.HasPrefix(fi.Pkg.PkgPath, modCmd) || fi.Decl.Body == nil {
+			return
+		}
+		info := fi.Info()
+		pm := parentMap(fi.Decl)
+		ast.Inspect(fi.Decl.Body, func(m ast.Node) bool {
+			as, ok := m.(*ast.AssignStmt)
+			if !ok {
+				return true
+			}
+			isStore := false
+			for _, l := range as.Lhs {
+				if isField(info, l, pMigrate, "PlanOptions", "SchemaQualifier") {
+					isStore = true
+				}
+			}
+			if !isStore {
+				return true
+			}
+			// the function body that holds both the store (possibly inside a closure built there) and the URL.Schema test
+			var node ast.Node = as
+			var body *ast.BlockStmt
+			for {
+				body = fi.Decl.Body
+				fl, _ := enclosing(pm, node, func(nd ast.Node) bool { _, ok := nd.(*ast.FuncLit); return ok }).(*ast.FuncLit)
+				if fl != nil {
+					body = fl.Body
+				}
+				if underSchemaScope(info, body, parentMap(body), node) {
+					break
+				}
+				if fl == nil {
+					return true // not decided by a URL.Schema test in this function (R16d reports it)
+				}
+				node = fl
+			}
+			n++
+			c.funcs[fi.Name] = true
+			f := newFlow(info, body)
+			schemaTest := func(e ast.Expr, val bool) (isTest bool, nonEmpty bool) {
+				be, ok := ast.Unparen(e).(*ast.BinaryExpr)
+				if !ok || (be.Op != token.NEQ && be.Op != token.EQL) {
+					return false, false
+				}
+				str, other := be.Y, be.X
+				if s, ok := stringConst(info, be.X); ok && s == "" {
+					str, other = be.X, be.Y
+				}
+				if s, ok := stringConst(info, str); !ok || s != "" {
+					return false, false
+				}
+				if !strings.HasSuffix(types.ExprString(other), ".URL.Schema") {
+					return false, false
+				}
+				return true, (be.Op == token.NEQ) == val
+			}
+			escaped := false
+			seen := map[*cfg.Block]bool{}
+			var walk func(b *cfg.Block)
+			walk = func(b *cfg.Block) {
+				if seen[b] || escaped {
+					return
+				}
+				seen[b] = true
+				for _, nd := range b.Nodes {
+					if nd.Pos() <= node.Pos() && node.End() <= nd.End() {
+						return
+					}
+					if isReturn(nd) {
+						escaped = true
+						return
+					}
+				}
+				if len(b.Succs) == 0 {
+					escaped = true
+					return
+				}
+				cond, _, _ := condOf(b)
+				for si, sb := range b.Succs {
+					pruned := false
+					if cond != nil && len(b.Succs) == 2 {
+						for _, fct := range impliedFacts(cond, si == 0) {
+							if is, nonEmpty := schemaTest(fct.expr, fct.val); is && !nonEmpty {
+								pruned = true // an edge on which the connection is known not to be schema-bound
+							}
+						}
+					}
+					if !pruned {
+						walk(sb)
+					}
+				}
+			}
+			walk(f.G.Blocks[0])
+			c.Check(rule, fi.Name+"|the qualifier store is reached whenever the connection is schema-bound", as.Pos(), !escaped, "%s can finish configuring the plan options without storing SchemaQualifier on a path that never established URL.Schema == \"\": for a schema-bound connection the statements then carry the schema's name (the decision depends on an unrelated option)", fi.Name)
+			return true
+		})
+	})
+	if n < 2 {
+		c.Unresolved(rule, "guarded stores of PlanOptions.SchemaQualifier in the command layer (fewer than 2)")
+	}
+}
+
+// R17m: the reverse of DROP TABLE is computed from the dropped table itself.
+const ruleTextReverseFromDropped = "sibling agreement of the dropTable planners (SQLite, MySQL, PostgreSQL): the scratch addTable call that computes the reverse of DROP TABLE receives an AddTable whose T is the DropTable's own T (the expression <drop>.T, directly, in the literal, or through a local defined once from it) — not a copy with fields removed: whatever is filtered from the copy (the sqlite_autoindex indexes of UNIQUE constraints) is missing from the CREATE TABLE of the down migration although the plan is reported reversible"
+
+func checkReverseFromDropped(c *Ctx, rule string) {
+	n := 0
+	for _, pp := range []string{pSqlite, pMysql, pPostgres} {
+		fi := c.LookupFunc(pp, "state", "dropTable")
+		if fi == nil || fi.Decl.Body == nil {
+			continue
+		}
+		info := fi.Info()
+		// the DropTable parameter
+		var drop types.Object
+		for _, fld := range fi.Decl.Type.Params.List {
+			for _, nm := range fld.Names {
+				if typeIs(derefType(info.TypeOf(nm)), pSchema, "DropTable") {
+					drop = info.ObjectOf(nm)
+				}
+			}
+		}
+		if drop == nil {
+			continue
+		}
+		isDropT := func(e ast.Expr) bool {
+			se, ok := ast.Unparen(e).(*ast.SelectorExpr)
+			if !ok || se.Sel.Name != "T" {
+				return false
+			}
+			id, ok := ast.Unparen(se.X).(*ast.Ident)
+			return ok && info.ObjectOf(id) == drop
+		}
+		var resolves func(e ast.Expr, depth int) bool
+		resolves = func(e ast.Expr, depth int) bool {
+			if isDropT(e) {
+				return true
+			}
+			id, ok := ast.Unparen(e).(*ast.Ident)
+			if !ok || depth > 2 {
+				return false
+			}
+			obj := info.ObjectOf(id)
+			defs, good := 0, 0
+			ast.Inspect(fi.Decl.Body, func(k ast.Node) bool {
+				if as, ok := k.(*ast.AssignStmt); ok {
+					for i, l := range as.Lhs {
+						if lid, ok := l.(*ast.Ident); ok && info.ObjectOf(lid) == obj {
+							defs++
+							if len(as.Rhs) == len(as.Lhs) && resolves(as.Rhs[i], depth+1) {
+								good++
+							}
+						}
+					}
+				}
+				return true
+			})
+			return defs == 1 && good == 1
+		}
+		for _, call := range callsIn(fi.Decl.Body, false) {
+			fn := calleeOf(info, call)
+			if fn == nil || fn.Name() != "addTable" {
+				continue
+			}
+			n++
+			c.funcs[fi.Name] = true
+			good := false
+			for _, a := range call.Args {
+				lit := ast.Unparen(a)
+				if un, ok := lit.(*ast.UnaryExpr); ok && un.Op == token.AND {
+					lit = ast.Unparen(un.X)
+				}
+				if id, ok := lit.(*ast.Ident); ok {
+					// a local defined once from the literal
+					obj := info.ObjectOf(id)
+					ast.Inspect(fi.Decl.Body, func(k ast.Node) bool {
+						if as, ok := k.(*ast.AssignStmt); ok && len(as.Lhs) == len(as.Rhs) {
+							for i, l := range as.Lhs {
+								if lid, ok := l.(*ast.Ident); ok && info.ObjectOf(lid) == obj {
+									lit = ast.Unparen(as.Rhs[i])
+									if un, ok := lit.(*ast.UnaryExpr); ok && un.Op == token.AND {
+										lit = ast.Unparen(un.X)
+									}
+								}
+							}
+						}
+						return true
+					})
+				}
+				cl, ok := lit.(*ast.CompositeLit)
+				if !ok || !typeIs(derefType(info.TypeOf(cl)), pSchema, "AddTable") {
+					continue
+				}
+				for _, el := range cl.Elts {
+					if kv, ok := el.(*ast.KeyValueExpr); ok {
+						if id, ok := kv.Key.(*ast.Ident); ok && id.Name == "T" && resolves(kv.Value, 0) {
+							good = true
+						}
+					}
+				}
+			}
+			c.Check(rule, fi.Name+"|the reverse is computed from the dropped table", call.Pos(), good, "%s computes the reverse of DROP TABLE from something other than the dropped table itself (the AddTable handed to the scratch addTable does not carry <drop>.T): what the copy leaves out is not recreated by the down migration, so up then down does not restore the schema", fi.Name)
+		}
+	}
+	if n < 3 {
+		c.Unresolved(rule, "scratch addTable calls in the dropTable planners (fewer than 3)")
+	}
+}
+
+// R17n: a table whose foreign keys are split off is kept without them.
+const ruleTextDetachedCopy = "detachReferences splits consistently: in every branch that moves foreign-key changes of a table change into a ModifyTable of their own (an append of a ModifyTable whose Changes is the collected list), the table change that stays behind is rebuilt over a copy of the table whose ForeignKeys field was reassigned in that branch (the AddTable keeps only self references, the DropTable none). The forward plan does not show the difference; the reverse of the kept DropTable is a CREATE TABLE computed from its table, and with the foreign keys still on it the down migration references tables that do not exist yet and defines each key twice"
+
+func checkDetachedCopy(c *Ctx, rule string) {
+	fi := c.Func(rule, pSqlx, "", "detachReferences")
+	if fi == nil {
+		return
+	}
+	info := fi.Info()
+	n := 0
+	ast.Inspect(fi.Decl.Body, func(m ast.Node) bool {
+		cc, ok := m.(*ast.CaseClause)
+		if !ok || len(cc.List) != 1 {
+			return true
+		}
+		t := derefType(info.TypeOf(cc.List[0]))
+		kind := ""
+		switch {
+		case typeIs(t, pSchema, "AddTable"):
+			kind = "AddTable"
+		case typeIs(t, pSchema, "DropTable"):
+			kind = "DropTable"
+		default:
+			return true
+		}
+		// the if-block that appends the split-off ModifyTable
+		for _, st := range cc.Body {
+			ifs, ok := st.(*ast.IfStmt)
+			if !ok {
+				continue
+			}
+			splits := false
+			ast.Inspect(ifs.Body, func(k ast.Node) bool {
+				if cl, ok := k.(*ast.CompositeLit); ok && typeIs(derefType(info.TypeOf(cl)), pSchema, "ModifyTable") {
+					splits = true
+				}
+				return true
+			})
+			if !splits {
+				continue
+			}
+			n++
+			c.funcs[fi.Name] = true
+			cleared, rebuilt := false, false
+			ast.Inspect(ifs.Body, func(k ast.Node) bool {
+				switch x := k.(type) {
+				case *ast.AssignStmt:
+					for _, l := range x.Lhs {
+						if se, ok := ast.Unparen(l).(*ast.SelectorExpr); ok && se.Sel.Name == "ForeignKeys" && typeIs(derefType(info.TypeOf(se.X)), pSchema, "Table") {
+							cleared = true
+						}
+					}
+				case *ast.CompositeLit:
+					if typeIs(derefType(info.TypeOf(x)), pSchema, kind) {
+						rebuilt = true
+					}
+				}
+				return true
+			})
+			c.Check(rule, "sqlx.detachReferences|the "+kind+" kept after splitting its foreign keys carries a copy without them", ifs.Pos(), cleared && rebuilt, "detachReferences moves the foreign keys of a %s into a ModifyTable of their own but keeps the original change (ForeignKeys reassigned on a copy: %v, change rebuilt: %v): the reverse of the kept change is computed from a table that still has the keys, so the down migration adds them twice and before the referenced tables exist", kind, cleared, rebuilt)
+		}
+		return true
+	})
+	if n < 2 {
+		c.Unresolved(rule, "branches of detachReferences that split foreign keys off a table change (fewer than 2)")
+	}
+}
+
+// R18k: a statement's nolint directive applies to that statement only.
+const ruleTextNolintLocal = "statement-level suppressions stay with their statement: in migratelint.nolintRules, inside the loop over the file's changes, the value stored under pos2rules[<that change's position>] is computed from values defined in the same iteration (the directives of c.Stmt, or the file directive of an enclosing loop) — never from a variable declared outside the loop and appended to inside it. Such an accumulator carries `-- atlas:nolint` of an earlier statement to every later one: a DROP TABLE further down is not reported and lint exits 0"
+
+func checkNolintLocal(c *Ctx, rule string) {
+	fi := c.Func(rule, pLint, "", "nolintRules")
+	if fi == nil {
+		return
+	}
+	info := fi.Info()
+	pm := parentMap(fi.Decl)
+	n := 0
+	ast.Inspect(fi.Decl.Body, func(m ast.Node) bool {
+		as, ok := m.(*ast.AssignStmt)
+		if !ok || len(as.Lhs) != 1 || len(as.Rhs) != 1 {
+			return true
+		}
+		ix, ok := ast.Unparen(as.Lhs[0]).(*ast.IndexExpr)
+		if !ok {
+			return true
+		}
+		se, ok := ast.Unparen(ix.X).(*ast.SelectorExpr)
+		if !ok || se.Sel.Name != "pos2rules" {
+			return true
+		}
+		loop, _ := enclosing(pm, as, func(nd ast.Node) bool { st, ok := nd.(ast.Stmt); return ok && loopBodyOf(st) != nil }).(ast.Stmt)
+		if loop == nil {
+			return true
+		}
+		// the loop over the changes (the one whose element provides the position): the outermost loop whose variable occurs in the key
+		var chg ast.Stmt
+		for p := ast.Node(loop); p != nil; p = pm[p] {
+			rs, ok := p.(*ast.RangeStmt)
+			if !ok {
+				continue
+			}
+			if v, ok := rs.Value.(*ast.Ident); ok {
+				uses := false
+				ast.Inspect(ix.Index, func(k ast.Node) bool {
+					if id, ok := k.(*ast.Ident); ok && info.ObjectOf(id) == info.ObjectOf(v) {
+						uses = true
+					}
+					return true
+				})
+				if uses {
+					chg = rs
+				}
+			}
+		}
+		if chg == nil {
+			return true
+		}
+		n++
+		c.funcs[fi.Name] = true
+		body := loopBodyOf(chg)
+		carried := ""
+		ast.Inspect(as.Rhs[0], func(k ast.Node) bool {
+			id, ok := k.(*ast.Ident)
+			if !ok {
+				return true
+			}
+			v, ok := info.Uses[id].(*types.Var)
+			if !ok || v.IsField() || v.Pos() >= chg.Pos() && v.Pos() < chg.End() || v.Pkg() == nil || v.Parent() == v.Pkg().Scope() {
+				return true
+			}
+			// declared outside the changes loop: is it assigned inside it?
+			ast.Inspect(body, func(q ast.Node) bool {
+				if st, ok := q.(*ast.AssignStmt); ok {
+					for _, l := range st.Lhs {
+						if lid, ok := ast.Unparen(l).(*ast.Ident); ok && info.ObjectOf(lid) == types.Object(v) {
+							carried = v.Name()
+						}
+					}
+				}
+				return true
+			})
+			return true
+		})
+		c.Check(rule, fmt.Sprintf("migratelint.nolintRules|store %d keeps rules with the statement they were written on", n), as.Pos(), carried == "", "nolintRules stores under a statement's position a value built from %s, a variable declared outside the loop over the changes and appended to inside it: the suppression written on one statement is applied to every later statement, so a destructive statement further down the file is not reported", carried)
+		return true
+	})
+	if n < 2 {
+		c.Unresolved(rule, "stores into pos2rules inside the loops of nolintRules (fewer than 2)")
+	}
+}
+
+// R18l: a default is set whatever the configuration block contains.
+const ruleTextDefaultUnconditional = "defaults precede overrides: in the analyzer constructors of sql/sqlcheck (New functions) a store of a default into an option field (X.Error = sqlx.P(true): destructive changes fail the run) lies on every path from the entry to a successful return — it is not conditional on the configuration block being absent. Resource.As leaves a pointer option nil when the attribute is missing, so an empty `destructive {}` block would turn the failing diagnostic into a warning and lint exits 0"
+
+func checkDefaultUnconditional(c *Ctx, rule string) {
+	n := 0
+	c.AllFuncs(false, func(fi *FuncInfo) {
+		if !strings.HasPrefix(fi.Pkg.PkgPath, pSqlcheck) || fi.Decl.Name.Name != "New" || fi.Decl.Body == nil || fi.Decl.Recv != nil {
+			return
+		}
+		info := fi.Info()
+		f := newFlow(info, fi.Decl.Body)
+		isDefault := func(nd ast.Node) bool {
+			as, ok := nd.(*ast.AssignStmt)
+			if !ok || len(as.Rhs) != 1 {
+				return false
+			}
+			call, ok := ast.Unparen(as.Rhs[0]).(*ast.CallExpr)
+			if !ok || !funcIs(calleeOf(info, call), pSqlx, "", "P") {
+				return false
+			}
+			_, isSel := ast.Unparen(as.Lhs[0]).(*ast.SelectorExpr)
+			return isSel
+		}
+		if len(f.find(isDefault)) == 0 {
+			return
+		}
+		n++
+		c.funcs[fi.Name] = true
+		okRet := func(nd ast.Node) bool {
+			ret, ok := nd.(*ast.ReturnStmt)
+			if !ok || len(ret.Results) != 2 {
+				return false
+			}
+			id, ok := ast.Unparen(ret.Results[1]).(*ast.Ident)
+			return ok && id.Name == "nil"
+		}
+		w, found := f.reach([]point{f.entry()}, isDefault, okRet, false)
+		c.Check(rule, fi.Name+"|the default is stored on every path to a successful return", nodePos(w, fi.Decl.Pos()), !found, "%s can return successfully (%s) without having stored the default of its option: with a configuration block that does not mention the option, the option stays nil and the analyzer's diagnostics no longer fail the run", fi.Name, c.nodeAtOrEnd(w))
+	})
+	if n < 1 {
+		c.Unresolved(rule, "analyzer constructors that store a default option (sqlx.P)")
+	}
+}
+
+// R19m: the exported reader configuration carries every option of the internal one.
+const ruleTextConfigComplete = "option forwarding is complete: where a method of the command layer converts its receiver into another configuration struct by a keyed composite literal whose values are fields of the receiver (stateReaderConfig.Exported → cmdext.StateReaderConfig), every field of the target type that has a counterpart of the same name (ignoring case) in the receiver is set in the literal. A dropped key compiles and leaves the zero value: without Exclude the file-based state readers (HCL, SQL, migration directory) return the excluded resources and the plan creates or alters them"
+
+func checkConfigComplete(c *Ctx, rule string) {
+	n := 0
+	c.AllFuncs(false, func(fi *FuncInfo) {
+		if !strings.HasPrefix(fi.Pkg.PkgPath, modCmd) || fi.Decl.Recv == nil || fi.Decl.Body == nil || len(fi.Decl.Recv.List) == 0 || len(fi.Decl.Recv.List[0].Names) == 0 {
+			return
+		}
+		info := fi.Info()
+		recv := info.ObjectOf(fi.Decl.Recv.List[0].Names[0])
+		if recv == nil {
+			return
+		}
+		rst, ok := derefType(recv.Type()).Underlying().(*types.Struct)
+		if !ok {
+			return
+		}
+		ast.Inspect(fi.Decl.Body, func(m ast.Node) bool {
+			cl, ok := m.(*ast.CompositeLit)
+			if !ok {
+				return true
+			}
+			tst, ok := derefType(info.TypeOf(cl)).Underlying().(*types.Struct)
+			if !ok || tst == rst {
+				return true
+			}
+			set := map[string]bool{}
+			fromRecv := 0
+			for _, el := range cl.Elts {
+				kv, ok := el.(*ast.KeyValueExpr)
+				if !ok {
+					return true
+				}
+				if id, ok := kv.Key.(*ast.Ident); ok {
+					set[id.Name] = true
+				}
+				if se, ok := ast.Unparen(kv.Value).(*ast.SelectorExpr); ok {
+					if id, ok := ast.Unparen(se.X).(*ast.Ident); ok && info.ObjectOf(id) == recv {
+						fromRecv++
+					}
+				}
+			}
+			if fromRecv < 3 {
+				return true
+			}
+			n++
+			c.funcs[fi.Name] = true
+			var missing []string
+			for i := 0; i < tst.NumFields(); i++ {
+				tf := tst.Field(i)
+				if set[tf.Name()] {
+					continue
+				}
+				for j := 0; j < rst.NumFields(); j++ {
+					if strings.EqualFold(rst.Field(j).Name(), tf.Name()) {
+						missing = append(missing, tf.Name())
+					}
+				}
+			}
+			c.Check(rule, fi.Name+"|every option with a counterpart is copied", cl.Pos(), len(missing) == 0, "%s builds a %s from its receiver but leaves out %v although the receiver has fields of the same name: the option is silently reset to its zero value on the way (no --exclude for file-based states: excluded resources come back and are planned)", fi.Name, types.ExprString(cl.Type), missing)
+			return true
+		})
+	})
+	if n < 1 {
+		c.Unresolved(rule, "receiver-to-configuration conversions in the command layer (stateReaderConfig.Exported)")
+	}
+}
+
+// R19n: wherever diff options are at hand, every diff call gets them.
+const ruleTextDiffOptsForwarded = "the diff policy reaches every comparison: in a function of sql/migrate or of the command layer that has a []schema.DiffOption at hand (a variadic parameter, a local, or a field of its receiver such as Planner.diffOpts), every call of RealmDiff / SchemaDiff / TableDiff passes it on (a variadic argument of that type). The migration planner compares in two scopes; a branch that forgets the options plans the changes the policy disabled (DROP TABLE, DROP COLUMN) whenever the dev connection is not bound to a schema"
+
+func checkDiffOptsForwarded(c *Ctx, rule string) {
+	n := 0
+	isOpts := func(t types.Type) bool {
+		sl, ok := t.Underlying().(*types.Slice)
+		return ok && typeIs(sl.Elem(), pSchema, "DiffOption")
+	}
+	c.AllFuncs(false, func(fi *FuncInfo) {
+		if fi.Decl.Body == nil || !(fi.Pkg.PkgPath == pMigrate || strings.HasPrefix(fi.Pkg.PkgPath, modCmd)) {
+			return
+		}
+		info := fi.Info()
+		have := false
+		if fi.Decl.Recv != nil && len(fi.Decl.Recv.List) > 0 {
+			if st, ok := derefType(info.TypeOf(fi.Decl.Recv.List[0].Type)).Underlying().(*types.Struct); ok {
+				for i := 0; i < st.NumFields(); i++ {
+					if isOpts(st.Field(i).Type()) {
+						have = true
+					}
+				}
+			}
+		}
+		ast.Inspect(fi.Decl, func(m ast.Node) bool {
+			if id, ok := m.(*ast.Ident); ok {
+				if v, ok := info.Defs[id].(*types.Var); ok && isOpts(v.Type()) {
+					have = true
+				}
+			}
+			return true
+		})
+		if !have {
+			return
+		}
+		ord := 0
+		for _, call := range callsIn(fi.Decl.Body, true) {
+			fn := calleeOf(info, call)
+			if fn == nil || !(fn.Name() == "RealmDiff" || fn.Name() == "SchemaDiff" || fn.Name() == "TableDiff") {
+				continue
+			}
+			sig, ok := fn.Type().(*types.Signature)
+			if !ok || !sig.Variadic() {
+				continue
+			}
+			n++
+			ord++
+			c.funcs[fi.Name] = true
+			forwarded := call.Ellipsis.IsValid() && len(call.Args) > 0 && isOpts(info.TypeOf(call.Args[len(call.Args)-1]))
+			c.Check(rule, fmt.Sprintf("%s|diff call %d (%s) receives the diff options", fi.Name, ord, fn.Name()), call.Pos(), forwarded, "%s has diff options at hand but calls %s without them: the changes the policy disabled (drop table, drop column, drop index) are produced on this path and reach the plan", fi.Name, fn.Name())
+		}
+	})
+	if n < 4 {
+		c.Unresolved(rule, "diff calls in functions holding diff options (fewer than 4)")
+	}
+}
+
+// R20j: names collected from a map are sorted by a total order.
+const ruleTextTotalOrderOverMapKeys = "a sort that removes map iteration order is total: where a slice of plain values (names, keys) is filled inside a `range` over a map and then sorted with a comparator (sort.Slice / sort.SliceStable / slices.SortFunc), the comparator compares the elements themselves (s[i] < s[j], strings.Compare(a, b), or their fields) — not a projection computed by a call (filepath.Base(s[i]), strings.ToLower(s[i])): distinct elements with equal projections tie, the tie is broken by the order the map happened to deliver, and the output (the order in which the parsed files are merged, hence tables, HCL and CREATE TABLE order) differs from run to run"
+
+func checkTotalOrderOverMapKeys(c *Ctx, rule string) {
+	n := 0
+	c.AllFuncs(false, func(fi *FuncInfo) {
+		if fi.Decl.Body == nil || strings.Contains(fi.Pkg.PkgPath, "/internal/integration") {
+			return
+		}
+		info := fi.Info()
+		// slices appended to inside a range over a map
+		fromMap := map[types.Object]bool{}
+		ast.Inspect(fi.Decl.Body, func(m ast.Node) bool {
+			rs, ok := m.(*ast.RangeStmt)
+			if !ok {
+				return true
+			}
+			if _, isMap := info.TypeOf(rs.X).Underlying().(*types.Map); !isMap {
+				return true
+			}
+			ast.Inspect(rs.Body, func(k ast.Node) bool {
+				if as, ok := k.(*ast.AssignStmt); ok && len(as.Lhs) == 1 && len(as.Rhs) == 1 {
+					if call, ok := ast.Unparen(as.Rhs[0]).(*ast.CallExpr); ok {
+						if id, ok := call.Fun.(*ast.Ident); ok && id.Name == "append" {
+							if lid, ok := ast.Unparen(as.Lhs[0]).(*ast.Ident); ok {
+								fromMap[info.ObjectOf(lid)] = true
+							}
+						}
+					}
+				}
+				return true
+			})
+			return true
+		})
+		if len(fromMap) == 0 {
+			return
+		}
+		for _, call := range callsIn(fi.Decl.Body, false) {
+			fn := calleeOf(info, call)
+			if fn == nil || fn.Pkg() == nil || len(call.Args) != 2 {
+				continue
+			}
+			isSort := fn.Pkg().Path() == "sort" && (fn.Name() == "Slice" || fn.Name() == "SliceStable") || fn.Pkg().Path() == "slices" && (fn.Name() == "SortFunc" || fn.Name() == "SortStableFunc")
+			if !isSort {
+				continue
+			}
+			sid, ok := ast.Unparen(call.Args[0]).(*ast.Ident)
+			if !ok || !fromMap[info.ObjectOf(sid)] {
+				continue
+			}
+			lit, ok := ast.Unparen(call.Args[1]).(*ast.FuncLit)
+			if !ok {
+				continue
+			}
+			// only slices of plain values (the map's keys): for records, a key accessor is the normal comparator
+			if sl, ok := info.TypeOf(sid).Underlying().(*types.Slice); !ok {
+				continue
+			} else if _, basic := sl.Elem().Underlying().(*types.Basic); !basic {
+				continue
+			}
+			n++
+			c.funcs[fi.Name] = true
+			// element expressions: s[i] (sort.Slice) or the parameters (slices.SortFunc)
+			params := map[types.Object]bool{}
+			if fn.Pkg().Path() == "slices" {
+				for _, fld := range lit.Type.Params.List {
+					for _, nm := range fld.Names {
+						params[info.ObjectOf(nm)] = true
+					}
+				}
+			}
+			isElem := func(e ast.Expr) bool {
+				e = ast.Unparen(e)
+				if ix, ok := e.(*ast.IndexExpr); ok {
+					if id, ok := ast.Unparen(ix.X).(*ast.Ident); ok && info.ObjectOf(id) == info.ObjectOf(sid) {
+						return true
+					}
+				}
+				if id, ok := e.(*ast.Ident); ok && params[info.ObjectOf(id)] {
+					return true
+				}
+				return false
+			}
+			pm := parentMap(lit)
+			projected := ""
+			ast.Inspect(lit.Body, func(k ast.Node) bool {
+				e, ok := k.(ast.Expr)
+				if !ok || !isElem(e) || projected != "" {
+					return true
+				}
+				// climb through selectors; a call that takes the element (or a field of it) as an argument is a projection,
+				// unless it is a comparison function taking both elements
+				var cur ast.Node = e
+				for p := pm[cur]; p != nil; cur, p = p, pm[p] {
+					switch x := p.(type) {
+					case *ast.SelectorExpr, *ast.ParenExpr, *ast.StarExpr:
+						continue
+					case *ast.CallExpr:
+						if x.Fun == cur {
+							// method call on the element: a projection as well
+							projected = types.ExprString(x)
+							return false
+						}
+						cf := calleeOf(info, x)
+						if cf != nil && cf.Pkg() != nil && (cf.Name() == "Compare" && (cf.Pkg().Path() == "strings" || cf.Pkg().Path() == "cmp" || cf.Pkg().Path() == "bytes")) {
+							return false
+						}
+						projected = types.ExprString(x)
+						return false
+					}
+					break
+				}
+				return false
+			})
+			c.Check(rule, fi.Name+"|the sort over "+sid.Name+" (filled from a map) compares the elements themselves", call.Pos(), projected == "", "%s sorts %s, which was filled in map iteration order, by a projection of its elements (%s): different elements with the same projection keep the order the map delivered them in, so the result differs between runs of the same input", fi.Name, sid.Name, projected)
+		}
+	})
+	if n < 1 {
+		c.Unresolved(rule, "comparator sorts over slices of plain values filled from a map")
+	}
+}
+
+// R20k: a search with a preferred and a fallback candidate does not stop at the fallback.
+const ruleTextPreferredSearch = "declaration order does not pick the match: where a function searches a list for a preferred candidate and a fallback (two result variables, returned in that order of precedence after the loop — similarCheck: by name, then by expression), the loop goes on while the preferred candidate is missing and elements remain: its condition can be false with elements left only if the preferred variable is set (decided by enumerating the truth assignments of the condition's atoms), and a break in its body stands under `preferred != nil`. A loop that stops at the first candidate of either kind returns the fallback when it happens to be declared first, so permuting the checks of a table changes the reported changes, not just their order"
+
+func checkPreferredSearch(c *Ctx, rule string) {
+	n := 0
+	for _, pp := range []string{pSqlx, pMysql, pPostgres, pSqlite} {
+		c.AllFuncs(false, func(fi *FuncInfo) {
+			if fi.Pkg.PkgPath != pp || fi.Decl.Body == nil {
+				return
+			}
+			info := fi.Info()
+			// after a loop: `if P != nil { return P… }` followed by `if F != nil { return F… }`
+			list := fi.Decl.Body.List
+			for li, st := range list {
+				var loop ast.Stmt
+				var loopCond ast.Expr
+				var loopBody *ast.BlockStmt
+				switch x := st.(type) {
+				case *ast.ForStmt:
+					loop, loopCond, loopBody = x, x.Cond, x.Body
+				case *ast.RangeStmt:
+					loop, loopBody = x, x.Body
+				}
+				if loop == nil || li+2 >= len(list) {
+					continue
+				}
+				retOf := func(s ast.Stmt) types.Object {
+					ifs, ok := s.(*ast.IfStmt)
+					if !ok || ifs.Else != nil || len(ifs.Body.List) != 1 {
+						return nil
+					}
+					be, ok := ast.Unparen(ifs.Cond).(*ast.BinaryExpr)
+					if !ok || be.Op != token.NEQ {
+						return nil
+					}
+					id, ok := ast.Unparen(be.X).(*ast.Ident)
+					if !ok {
+						return nil
+					}
+					if nid, ok := ast.Unparen(be.Y).(*ast.Ident); !ok || nid.Name != "nil" {
+						return nil
+					}
+					ret, ok := ifs.Body.List[0].(*ast.ReturnStmt)
+					if !ok || len(ret.Results) == 0 {
+						return nil
+					}
+					if rid, ok := ast.Unparen(ret.Results[0]).(*ast.Ident); !ok || info.ObjectOf(rid) != info.ObjectOf(id) {
+						return nil
+					}
+					return info.ObjectOf(id)
+				}
+				pref, fall := retOf(list[li+1]), retOf(list[li+2])
+				if pref == nil || fall == nil || pref == fall {
+					continue
+				}
+				n++
+				c.funcs[fi.Name] = true
+				// atoms of the loop condition
+				atoms := map[string]ast.Expr{}
+				var collect func(e ast.Expr)
+				collect = func(e ast.Expr) {
+					e = ast.Unparen(e)
+					switch x := e.(type) {
+					case *ast.UnaryExpr:
+						if x.Op == token.NOT {
+							collect(x.X)
+							return
+						}
+					case *ast.BinaryExpr:
+						if x.Op == token.LAND || x.Op == token.LOR {
+							collect(x.X)
+							collect(x.Y)
+							return
+						}
+					}
+					atoms[types.ExprString(e)] = e
+				}
+				if loopCond != nil {
+					collect(loopCond)
+				}
+				var names []string
+				for k := range atoms {
+					names = append(names, k)
+				}
+				sort.Strings(names)
+				var ev func(e ast.Expr, asg map[string]bool) bool
+				ev = func(e ast.Expr, asg map[string]bool) bool {
+					e = ast.Unparen(e)
+					switch x := e.(type) {
+					case *ast.UnaryExpr:
+						if x.Op == token.NOT {
+							return !ev(x.X, asg)
+						}
+					case *ast.BinaryExpr:
+						switch x.Op {
+						case token.LAND:
+							return ev(x.X, asg) && ev(x.Y, asg)
+						case token.LOR:
+							return ev(x.X, asg) || ev(x.Y, asg)
+						}
+					}
+					return asg[types.ExprString(e)]
+				}
+				// classification of atoms: "pref is nil" (value when pref == nil), bound atoms (elements remain)
+				prefNil := func(e ast.Expr) (is bool, whenTrue bool) {
+					be, ok := ast.Unparen(e).(*ast.BinaryExpr)
+					if !ok || (be.Op != token.EQL && be.Op != token.NEQ) {
+						return false, false
+					}
+					id, ok := ast.Unparen(be.X).(*ast.Ident)
+					if !ok || info.ObjectOf(id) != pref {
+						return false, false
+					}
+					if nid, ok := ast.Unparen(be.Y).(*ast.Ident); !ok || nid.Name != "nil" {
+						return false, false
+					}
+					return true, be.Op == token.EQL
+				}
+				isBound := func(e ast.Expr) bool {
+					be, ok := ast.Unparen(e).(*ast.BinaryExpr)
+					return ok && (be.Op == token.LSS || be.Op == token.LEQ || be.Op == token.GTR || be.Op == token.GEQ)
+				}
+				bad := len(names) > 12
+				for m := 0; !bad && m < 1<<len(names); m++ {
+					asg := map[string]bool{}
+					for i, nm := range names {
+						asg[nm] = m&(1<<i) != 0
+					}
+					// elements remain, the preferred candidate is missing
+					applies := true
+					for nm, e := range atoms {
+						if isBound(e) && !asg[nm] {
+							applies = false
+						}
+						if is, whenTrue := prefNil(e); is && asg[nm] != whenTrue {
+							applies = false
+						}
+					}
+					if applies && loopCond != nil && !ev(loopCond, asg) {
+						bad = true
+					}
+				}
+				// breaks in the body must be under pref != nil
+				pm := parentMap(loop)
+				ast.Inspect(loopBody, func(k ast.Node) bool {
+					br, ok := k.(*ast.BranchStmt)
+					if !ok || br.Tok != token.BREAK {
+						return true
+					}
+					if _, inner := enclosing(pm, br, func(nd ast.Node) bool {
+						switch nd.(type) {
+						case *ast.SwitchStmt, *ast.TypeSwitchStmt, *ast.SelectStmt:
+							return true
+						case *ast.ForStmt, *ast.RangeStmt:
+							return nd != ast.Node(loop)
+						}
+						return false
+					}).(ast.Stmt); inner {
+						return true
+					}
+					guarded := false
+					for _, fct := range enclosingFacts(pm, br) {
+						if is, whenTrue := prefNil(fct.expr); is && fct.val != whenTrue {
+							guarded = true
+						}
+					}
+					if !guarded {
+						bad = true
+					}
+					return true
+				})
+				c.Check(rule, fi.Name+"|the search continues until "+pref.Name()+" is found", loop.Pos(), !bad, "%s prefers %s over %s after its loop, but the loop can stop while %s is still nil and elements remain: which candidate is returned then depends on the order in which they are declared, so reordering the source changes the diff itself", fi.Name, pref.Name(), fall.Name(), pref.Name())
+			}
+		})
+	}
+	if n < 1 {
+		c.Unresolved(rule, "search loops with a preferred and a fallback candidate in the differ packages (sqlx.similarCheck)")
+	}
+}
+
+// R16o: the scope check counts the schemas a table refers to.
+const ruleTextScopeCountsReferences = "the scope check sees every schema a change set touches: sqlx.CheckChangesScope records, next to the schema of each added / modified / dropped table, the schema of the tables its foreign keys reference (a store into the set of schema names whose key is read through ForeignKey.RefTable). With the empty qualifier the planners print REFERENCES \"users\" for a parent in another schema: unless the check rejects the change set, the reference is silently re-homed to the connected schema"
+
+func checkScopeCountsReferences(c *Ctx, rule string) {
+	fi := c.Func(rule, pSqlx, "", "CheckChangesScope")
+	if fi == nil {
+		return
+	}
+	info := fi.Info()
+	// the set of names: a local map[string]struct{}
+	var set types.Object
+	ast.Inspect(fi.Decl.Body, func(m ast.Node) bool {
+		if as, ok := m.(*ast.AssignStmt); ok && as.Tok == token.DEFINE {
+			for _, l := range as.Lhs {
+				if id, ok := l.(*ast.Ident); ok && info.TypeOf(id) != nil {
+					if mt, ok := info.TypeOf(id).Underlying().(*types.Map); ok {
+						if b, ok := mt.Key().Underlying().(*types.Basic); ok && b.Kind() == types.String && set == nil {
+							set = info.ObjectOf(id)
+						}
+					}
+				}
+			}
+		}
+		return true
+	})
+	if set == nil {
+		c.Unresolved(rule, "CheckChangesScope: the set of schema names")
+		return
+	}
+	c.funcs[fi.Name] = true
+	// aliases of a referenced table: locals defined from <fk>.RefTable
+	refAlias := map[types.Object]bool{}
+	viaRef := func(e ast.Expr) bool {
+		found := false
+		ast.Inspect(e, func(k ast.Node) bool {
+			switch x := k.(type) {
+			case *ast.SelectorExpr:
+				if x.Sel.Name == "RefTable" && typeIs(derefType(info.TypeOf(x.X)), pSchema, "ForeignKey") {
+					found = true
+				}
+			case *ast.Ident:
+				if refAlias[info.ObjectOf(x)] {
+					found = true
+				}
+			}
+			return !found
+		})
+		return found
+	}
+	ast.Inspect(fi.Decl.Body, func(m ast.Node) bool {
+		if as, ok := m.(*ast.AssignStmt); ok && len(as.Lhs) == len(as.Rhs) {
+			for i, l := range as.Lhs {
+				if id, ok := l.(*ast.Ident); ok && info.TypeOf(id) != nil && typeIs(derefType(info.TypeOf(id)), pSchema, "Table") && viaRef(as.Rhs[i]) {
+					refAlias[info.ObjectOf(id)] = true
+				}
+			}
+		}
+		return true
+	})
+	recorded := false
+	ast.Inspect(fi.Decl.Body, func(m ast.Node) bool {
+		as, ok := m.(*ast.AssignStmt)
+		if !ok {
+			return true
+		}
+		for _, l := range as.Lhs {
+			ix, ok := ast.Unparen(l).(*ast.IndexExpr)
+			if !ok {
+				continue
+			}
+			if id, ok := ast.Unparen(ix.X).(*ast.Ident); ok && info.ObjectOf(id) == set && viaRef(ix.Index) {
+				recorded = true
+			}
+		}
+		return true
+	})
+	c.Check(rule, "sqlx.CheckChangesScope|the schemas of referenced tables are counted", fi.Decl.Pos(), recorded, "CheckChangesScope never records the schema of a table reached through ForeignKey.RefTable: a table whose foreign key points into another schema passes the one-schema check, and under the empty qualifier the reference is printed without its schema, i.e. re-homed to the connected schema")
 }
